@@ -37,6 +37,8 @@ pub enum Wrap {
     If,
     /// inside a mixin that is then included (load-css only)
     Mixin,
+    /// inside `@each $q in 1 2 { … }`: the load executes twice (load-css only)
+    Each,
 }
 
 #[derive(Clone, Debug, PartialEq, Serialize, Deserialize)]
@@ -75,6 +77,9 @@ pub struct GraphSpec {
     /// bases[0] is the directory the root name is relative to, the others are load paths
     pub bases: Vec<String>,
     pub fmt: Fmt,
+    /// write adjacent unwrapped `@import`s as one statement: `@import "a", "b";`
+    #[serde(default)]
+    pub merge_imports: bool,
 }
 
 impl GraphSpec {
@@ -101,7 +106,16 @@ impl GraphSpec {
                 }
                 Stmt::Load { kind: LoadKind::Import, url, wrap, .. } => match wrap {
                     Wrap::Rule => body.push_str(&format!("w{i}x{k} {{ @import \"{url}\"; }}\n")),
-                    _ => body.push_str(&format!("@import \"{url}\";\n")),
+                    _ => {
+                        let prev_is_plain_import = k > 0
+                            && matches!(&f.stmts[k - 1], Stmt::Load { kind: LoadKind::Import, wrap: w, .. } if *w != Wrap::Rule);
+                        if self.merge_imports && prev_is_plain_import && body.ends_with("\";\n") {
+                            body.truncate(body.len() - 2);
+                            body.push_str(&format!(", \"{url}\";\n"));
+                        } else {
+                            body.push_str(&format!("@import \"{url}\";\n"));
+                        }
+                    }
                 },
                 Stmt::Load { kind: LoadKind::LoadCss, url, wrap, .. } => {
                     let call = format!("@include meta.load-css(\"{url}\");");
@@ -112,6 +126,7 @@ impl GraphSpec {
                         Wrap::Mixin => body.push_str(&format!(
                             "@mixin w{i}x{k} {{ {call} }}\n@include w{i}x{k};\n"
                         )),
+                        Wrap::Each => body.push_str(&format!("@each $q{i}x{k} in 1 2 {{ {call} }}\n")),
                     }
                 }
                 Stmt::Marker => body.push_str(&format!("m{i} {{ f: {i}; }}\n")),
@@ -422,6 +437,11 @@ pub fn graph_shrinks(g: &GraphSpec) -> Vec<GraphSpec> {
     if g.fmt != Fmt::default() {
         let mut n = g.clone();
         n.fmt = Fmt::default();
+        out.push(n);
+    }
+    if g.merge_imports {
+        let mut n = g.clone();
+        n.merge_imports = false;
         out.push(n);
     }
     out
